@@ -292,6 +292,9 @@ def check_C01(ctx):
     rep.stats.update({'head_' + k: v for k, v in heads.items()})
     rep.stats.update({'outcome_' + k: v for k, v in kinds.items()})
     shared_evaluation(ctx, rep)
+    import props2
+    props2.history_correspondence(ctx, rep, sizes(tier, 200, 4000), ('at',), maxlen=sizes(tier, 12, 30),
+                                  what='sequence', disturb=('located', 'pat', 'dat', 'dfat', 'dfcompat'))
     return rep
 
 
@@ -451,6 +454,11 @@ def check_C02(ctx):
         if o[0] == 'PYERR' and 'Overflow' not in o[1]:
             rep.oracle_fail('foreign exception %s' % o[1], b, [i])
     rep.stats.update({'outcome_' + k: v for k, v in kinds.items()})
+    # the same question asked of USED objects: evaluations that follow failed evaluations, derivative
+    # queries and evaluations of sharing expressions at other points (boundary points included)
+    import props2
+    props2.history_correspondence(ctx, rep, sizes(tier, 300, 5000), ('at',), maxlen=sizes(tier, 12, 30),
+                                  what='sequence', disturb=('located', 'pat', 'dat', 'dfat', 'dfcompat'))
     return rep
 
 
@@ -683,8 +691,9 @@ def check_routes(ctx, prop):
         keep = {'C03': ('pat', 'dat'), 'C04': ('located', 'dfat', 'at'),
                 'C06': ('pat', 'dat', 'located', 'dfat', 'dfcompat', 'pexpr', 'dexpr', 'dfcompexpr', 'at'),
                 'C07': ('pat', 'dat', 'located', 'dfat', 'dfcompat', 'at', 'pexpr', 'dexpr')}[prop]
-        props2.history_correspondence(ctx, rep, sizes(tier, 150, 3000), keep, maxlen=sizes(tier, 10, 30),
-                                      what='sequence')
+        disturb = tuple(k for k in ('at', 'located', 'pat', 'dat', 'dfat', 'dfcompat') if k not in keep)
+        props2.history_correspondence(ctx, rep, sizes(tier, 300, 5000), keep, maxlen=sizes(tier, 12, 30),
+                                      what='sequence', disturb=disturb)
     return rep
 
 
